@@ -1,6 +1,6 @@
 //! C05 - compaction changes layout, never content.
 
-use crate::db::DbConfig;
+use crate::db::{DbConfig, DbError};
 use crate::fw::*;
 use crate::hist::*;
 use crate::props::c01::simple_ev;
@@ -240,9 +240,223 @@ fn run_case(c: &Case, rep: &mut CaseReport) -> Verdict {
     Verdict::Pass
 }
 
+/// Step boundaries a compaction round crosses (output write, hand-over, index save, reclaim).
+pub const ROUND_STEPS: &[&str] = &[
+    "zw.zones",
+    "zw.cols",
+    "zw.temporal",
+    "zw.filters",
+    "zw.idx",
+    "compact.uid_written",
+    "handover.before_save",
+    "segidx.tmp_written",
+    "segidx.renamed",
+    "handover.saved",
+    "handover.live_updated",
+    "compact.before_reclaim",
+    "reclaim.renamed",
+    "reclaim.deleted",
+];
+
+/// A history that ends with everything flushed, then a compaction round that dies at a named step.
+#[derive(Clone, Debug, Serialize, Deserialize)]
+pub struct CrashCase {
+    #[serde(flatten)]
+    pub base: Case,
+    /// step name (one of ROUND_STEPS) and which crossing of it kills the process
+    pub crash_step: String,
+    pub crash_nth: u8,
+}
+
+fn crash_case_strategy(tier: Tier) -> BoxedStrategy<CrashCase> {
+    (case_strategy(tier), 0..ROUND_STEPS.len(), 1u8..=3)
+        .prop_map(|(mut base, si, nth)| {
+            // the history proper: no restart, no round before the interrupted one is needed, but they are kept when generated;
+            // the two closing rounds of the main exploration are replaced by the interrupted round
+            base.ops.truncate(base.ops.len().saturating_sub(2));
+            // the interrupted round is the first round of the first lifetime: histories that store after a compaction and a
+            // restart belong to the classes of open C01 / C11 findings (L0 ids restart at 0, segment ids are reused)
+            base.ops.retain(|o| !matches!(o, Op::Compact(_) | Op::Restart));
+            CrashCase { base, crash_step: ROUND_STEPS[si].to_string(), crash_nth: nth }
+        })
+        .boxed()
+}
+
+/// The part of the answers that does not depend on the open findings about partial directories becoming live
+/// (duplicates): nothing that was readable before the round may be LOST. Error responses are counted, not judged.
+fn observe_no_loss(w: &mut World, types: &[TypeDef], n_ctx: usize, what: &str, rep: &mut CaseReport) -> Result<Option<(String, Value)>, Problem> {
+    for (ti, t) in types.iter().enumerate() {
+        let want: BTreeSet<i64> = w.model.events.iter().filter(|e| e.ty == ti).map(|e| e.k).collect();
+        let q = format!("QUERY {} RETURN [k]", t.name);
+        let r = w.db.cmd(&q)?;
+        if r.is_error() {
+            rep.label("interrupted:error-response-not-judged");
+            continue;
+        }
+        let got: BTreeSet<i64> = ks_of(&r).into_iter().collect();
+        let missing: Vec<i64> = want.difference(&got).cloned().collect();
+        if !missing.is_empty() {
+            return Ok(Some(("event-lost-after-interrupted-round".into(), json!({"at": what, "cmd": q, "missing": missing, "log": w.db.log}))));
+        }
+        let qc = format!("QUERY {} COUNT", t.name);
+        let rc = w.db.cmd(&qc)?;
+        if !rc.is_error() && rc.streamed {
+            let cnt = rc.rows.first().and_then(|r| r.first()).and_then(|v| v.as_i64()).unwrap_or(0);
+            if cnt < want.len() as i64 {
+                return Ok(Some(("count-below-selection-after-interrupted-round".into(), json!({"at": what, "cmd": qc, "count": cnt, "selection": want.len(), "log": w.db.log}))));
+            }
+        }
+        for cx in 0..n_ctx {
+            let name = ctx_name(cx);
+            let want: BTreeSet<i64> = w.model.events.iter().filter(|e| e.ty == ti && e.ctx == name).map(|e| e.k).collect();
+            let q = format!("REPLAY {} FOR {} RETURN [k]", t.name, name);
+            let r = w.db.cmd(&q)?;
+            if r.is_error() {
+                rep.label("interrupted:error-response-not-judged");
+                continue;
+            }
+            let got: BTreeSet<i64> = ks_of(&r).into_iter().collect();
+            let missing: Vec<i64> = want.difference(&got).cloned().collect();
+            if !missing.is_empty() {
+                return Ok(Some(("replay-lost-after-interrupted-round".into(), json!({"at": what, "cmd": q, "missing": missing, "log": w.db.log}))));
+            }
+        }
+    }
+    Ok(None)
+}
+
+fn run_crash_case(c: &CrashCase, rep: &mut CaseReport) -> Verdict {
+    let b = &c.base;
+    let mut w = match World::start("c05x", &b.cfg, &b.types, false) {
+        Ok(w) => w,
+        Err(e) => {
+            rep.inconclusive = Some(format!("start: {:?}", e));
+            return Verdict::Discard("start failed".into());
+        }
+    };
+    for op in &b.ops {
+        if let Err(e) = w.apply(op) {
+            return problem_verdict(e, &mut w, rep);
+        }
+    }
+    if let Err(e) = w.apply(&Op::Flush).and_then(|_| w.apply(&Op::Barrier)) {
+        return problem_verdict(e, &mut w, rep);
+    }
+    // the full comparison before the round is the main exploration's business; here only: is everything readable now?
+    match observe_no_loss(&mut w, &b.types, b.n_ctx, "before-interrupted-round", rep) {
+        Ok(Some(_)) => return Verdict::Discard("history already loses events before the round (judged by the main exploration)".into()),
+        Ok(None) => {}
+        Err(e) => return problem_verdict(e, &mut w, rep),
+    }
+    if let Err(e) = w.db.req(json!({"op":"arm_crash","step":c.crash_step,"nth":c.crash_nth})) {
+        return problem_verdict(Problem::Db(e), &mut w, rep);
+    }
+    let planned0 = w.compactions_planned;
+    let died = match w.apply(&Op::Compact(1)) {
+        Ok(()) => false,
+        Err(Problem::Db(DbError::Died(_))) => true,
+        Err(e) => return problem_verdict(e, &mut w, rep),
+    };
+    rep.sub_evals += 1;
+    if died {
+        rep.label(format!("interrupted-at:{}", c.crash_step));
+        if let Err(e) = w.reopen() {
+            return problem_verdict(e, &mut w, rep);
+        }
+    } else {
+        rep.label(if w.compactions_planned > planned0 { "round-completed:step-not-crossed-often-enough" } else { "round-without-plan" });
+        // the armed step may still fire later; a clean restart disarms it
+        match w.apply(&Op::Restart) {
+            Ok(()) => {}
+            Err(Problem::Db(DbError::Died(_))) => {
+                rep.label("interrupted-at-shutdown");
+                if let Err(e) = w.reopen() {
+                    return problem_verdict(e, &mut w, rep);
+                }
+            }
+            Err(e) => return problem_verdict(e, &mut w, rep),
+        }
+    }
+    // a crash recovery may replay WAL entries of already flushed events into the memtable (open C01 findings) and flush them
+    // again in the background: every observation and every later round waits for those flushes first, so that no read and no
+    // round runs beside a flush in flight (the class of another open finding)
+    if let Err(e) = w.db.barrier() {
+        return problem_verdict(Problem::Db(e), &mut w, rep);
+    }
+    // (1) right after the restart the previous answers still hold (here: nothing is lost)
+    match observe_no_loss(&mut w, &b.types, b.n_ctx, "after-restart", rep) {
+        Ok(Some((s, d))) => return Verdict::fail(s, d),
+        Ok(None) => {}
+        Err(e) => return problem_verdict(e, &mut w, rep),
+    }
+    // (2) the next rounds find the leftovers of the interrupted one; they must not lose anything either
+    let mut later_rounds = 0;
+    // ONE later round per shard: cascades of rounds after an interrupted one re-create retired segment ids within one process
+    // (open finding C11-segment-id-reuse) and then lose events now and then on the unchanged tree (DESIGN 7.3)
+    for _ in 0..1 {
+        let mut any = false;
+        for s in 0..b.cfg.shard_count {
+            if let Err(e) = w.db.barrier() {
+                return problem_verdict(Problem::Db(e), &mut w, rep);
+            }
+            match w.db.compact(s) {
+                Ok(v) => {
+                    if v["error"].as_str().is_some() || v.get("panic").is_some() {
+                        rep.label("later-round-failed");
+                        w.db.panics.clear();
+                    } else if v["planned"].as_bool() == Some(true) {
+                        any = true;
+                        later_rounds += 1;
+                    }
+                }
+                Err(e) => return problem_verdict(Problem::Db(e), &mut w, rep),
+            }
+        }
+        rep.sub_evals += 1;
+        if let Err(e) = w.db.barrier() {
+            return problem_verdict(Problem::Db(e), &mut w, rep);
+        }
+        match observe_no_loss(&mut w, &b.types, b.n_ctx, "after-later-round", rep) {
+            // a read right after a round that followed an interrupted one misses events now and then on the unchanged tree
+            // (timing dependent, 1 replay in 6; see DESIGN 7.3): counted here, judged after the clean restart below, where
+            // the answer depends on the directories only
+            Ok(Some(_)) => rep.label("later-round:loss-seen-before-the-clean-restart(not judged)"),
+            Ok(None) => {}
+            Err(e) => return problem_verdict(e, &mut w, rep),
+        }
+        if !any {
+            break;
+        }
+    }
+    if later_rounds > 0 {
+        rep.label("later-round:planned");
+    }
+    // (3) and a clean restart after those rounds
+    if let Err(e) = w.apply(&Op::Restart) {
+        return problem_verdict(e, &mut w, rep);
+    }
+    match observe_no_loss(&mut w, &b.types, b.n_ctx, "after-later-rounds-and-clean-restart", rep) {
+        Ok(Some((s, d))) => return Verdict::fail(s, d),
+        Ok(None) => {}
+        Err(e) => return problem_verdict(e, &mut w, rep),
+    }
+    if died && later_rounds > 0 {
+        rep.nontrivial = true;
+    }
+    rep.sample = Some(json!({"config": {"shards": b.cfg.shard_count, "capacity": b.cfg.capacity(), "segments_per_merge": b.cfg.segments_per_merge}, "types": b.types.len(), "events": w.model.events.len(),
+        "crash": format!("{}#{}", c.crash_step, c.crash_nth), "died": died, "later_rounds_with_plan": later_rounds}));
+    Verdict::Pass
+}
+
 pub static EXCL_COUNT: std::sync::atomic::AtomicBool = std::sync::atomic::AtomicBool::new(false);
 
 pub fn replay(_check: &str, case: &Value) -> Verdict {
+    if case.get("crash_step").is_some() {
+        return match serde_json::from_value::<CrashCase>(case.clone()) {
+            Ok(c) => run_crash_case(&c, &mut CaseReport::default()),
+            Err(e) => Verdict::Discard(format!("bad case: {}", e)),
+        };
+    }
     match serde_json::from_value::<Case>(case.clone()) {
         Ok(c) => run_case(&c, &mut CaseReport::default()),
         Err(e) => Verdict::Discard(format!("bad case: {}", e)),
@@ -267,6 +481,13 @@ pub fn run(ctx: &Ctx) -> i32 {
     let tier = ctx.tier;
     if let Some(f) = explore(ctx, "rounds", || case_strategy(tier), Explore { cases, max_shrink_iters: ctx.tier.pick(80, 400), lanes: ctx.lanes }, &stats, run_case) {
         report.violations.push(f);
+    }
+    // second exploration: the round dies at a named step; restart, later rounds, clean restart: nothing is lost
+    if report.violations.is_empty() {
+        let cases2 = ctx.tier.pick(112, 1500);
+        if let Some(f) = explore(ctx, "interrupted-rounds", || crash_case_strategy(tier), Explore { cases: cases2, max_shrink_iters: ctx.tier.pick(80, 400), lanes: ctx.lanes }, &stats, run_crash_case) {
+            report.violations.push(f);
+        }
     }
     finish(ctx, stats.into_inner().unwrap(), report)
 }
